@@ -114,6 +114,7 @@ CONSTANTS Policies,   \* subset of {"default","reusable","mtsafe","stack","place
           MaxDtor,    \* attached-object layer: bound on completions in which the destructor of the attached object
                       \* is a step of its own, during which coroutines are created and completed
           MaxDtorMoves, \* ... operations on storage objects (NewObj, MoveCtor, ...) before such a completion (none after it)
+          MaxFail,    \* > 0: one creation per history whose operator new throws (CreateFail; counted in nthrow)
           DtorFirst   \* promise_extra_storage::dealloc destroys the object BEFORE it gives the block back to the base
                       \* policy (coro_storage.h:246-247: TRUE); FALSE: the model of the opposite order (must be rejected)
 
@@ -459,6 +460,25 @@ CreateThrow(t, c) ==
                             [] OTHER -> S
               IN Commit(1, back) /\ UNCHANGED busy
 
+(* operator new itself throws (std::bad_alloc) inside the policy's alloc: with_allocator.h:85 (default), the growth of
+   reusable_storage coro_storage.h:53 (new block first: nothing has been touched yet), the heap fallback of
+   reusable_storage_mtsafe :161 and of stack_storage alloca_storage.h:44, the reallocation of the buffer's vector (strong
+   guarantee).  No frame comes into being, the exception reaches the creator, NOTHING changes: in particular the
+   thread-safe storage stays busy -- the flag belongs to the frame that lives in its block, not to the failed creation.
+   (reusable_storage_mtsafe growing while NOT busy is left out: the exchange has set _busy and nothing clears it again.) *)
+NeedsNew(c) == CASE Policy = "default" -> TRUE
+                 [] Policy = "reusable" -> Fixed /\ Req(c) > cap
+                 [] Policy = "mtsafe" -> busy
+                 [] Policy = "stack" -> Req(c) > cap
+                 [] Policy = "buffer" -> cap < Req(c) /\ (IF ptr = 0 THEN TRUE ELSE Req(c) > heap[ptr])
+                 [] OTHER -> FALSE
+CreateFail(t, c) ==
+    /\ Grain = "call" /\ Cardinality(Threads) = 1 /\ MaxFail > 0 /\ nthrow = 0 /\ ndtor = 0
+    /\ prep = <<>> /\ Len(fr) <= 1 /\ objs[2].st = "none"
+    /\ CanCreate(t, c, 1) /\ NeedsNew(c)
+    /\ nthrow' = nthrow + 1
+    /\ UNCHANGED <<env, heap, fr, objs, busy, pc, news, dels, dbl, torn, prep, nmov, nown, ndtor>>
+
 -----------------------------------------------------------------------------
 (* reusable_storage is movable (coro_storage.h:33-43); with the attached-object layer the factory and
    `inventory` travel along.  Storage objects are constructed, moved and destroyed while no frame is alive. *)
@@ -537,7 +557,7 @@ Teardown ==
                                   ELSE objs[o]]
     /\ UNCHANGED <<env, fr, busy, pc, Rest>>
 
-Next == \/ \E t \in Threads, c \in 1..3 : Create(t, c) \/ CreateB(t, c) \/ CreateThrow(t, c)
+Next == \/ \E t \in Threads, c \in 1..3 : Create(t, c) \/ CreateB(t, c) \/ CreateThrow(t, c) \/ CreateFail(t, c)
         \/ \E t \in Threads, c \in 1..3, i \in 1..2 : CreateP(t, c, i)
         \/ Prepare
         \/ \E t \in Threads, f \in 1..MaxCreate : Complete(t, f) \/ DtorBegin(t, f) \/ DtorEnd(t, f)
